@@ -15,7 +15,8 @@ def units(tier):
                      assumptions=["one operation from every valid state with <= %d entries (inductive step; histories of any length within that size)" % max(ns), "int keys and values", "erase (std::stable_partition: recursion bound 2-3) only for states of <= 1 (quick) / 2 (thorough) entries: larger ones do not finish"]),
             CbmcUnit("params", "harness/C10_flatmap.cpp", [
                 Entry("vp_main_params_get", unwind=6, timeout=1200, desc="ParameterizedObject: absent/default, set, wrong-type read (default, not queried), exact read (value, queried), reset of query status; symbolic values"),
-                Entry("vp_main_params_retype", unwind=6, timeout=1200, desc="two names, type change under one name: one entry each, first-insertion order, old type reads default"),
-                Entry("vp_main_params_remove", unwind=6, timeout=1200, desc="removal keeps the rest; removing an absent name is a no-op")],
+                ] + ([] if q else [
+                Entry("vp_main_params_retype", unwind=6, timeout=3000, desc="two names, type change under one name: one entry each, first-insertion order, old type reads default (no verdict within 1200 s in the quick tier)"),
+                Entry("vp_main_params_remove", unwind=6, timeout=3000, desc="removal keeps the rest; removing an absent name is a no-op (no verdict within 1200 s in the quick tier)")]),
                 defines=["STEPS=1"], heap_max=64, opaque=OPAQUE, object_bits=9,
                 assumptions=["names 'a','b' (libstdc++ string model), int/float values", "three fixed operation scenarios with symbolic values (not all histories)"])]
